@@ -12,6 +12,7 @@
 (* Operators take an int fast path when all operands fit in 30 bits.       *)
 (***************************************************************************)
 EXTENDS Naturals, Integers, Sequences
+LOCAL INSTANCE SequencesExt
 
 Bit == {0, 1}
 
@@ -19,20 +20,22 @@ Zeros(n) == [i \in 1..n |-> 0]
 Ones(n)  == [i \in 1..n |-> 1]
 Rev(s)   == [i \in 1..Len(s) |-> s[Len(s) + 1 - i]]
 
-Min(a, b) == IF a <= b THEN a ELSE b
-Max(a, b) == IF a >= b THEN a ELSE b
+Min2(a, b) == IF a <= b THEN a ELSE b
+Max2(a, b) == IF a >= b THEN a ELSE b
 
 RECURSIVE Pow2Int(_)
 Pow2Int(k) == IF k = 0 THEN 1 ELSE 2 * Pow2Int(k - 1)   \* k <= 30
 
+\* TLC evaluates deep recursion in time quadratic in the depth, so scans over
+\* long sequences use the SequencesExt operators (evaluated natively).
+IsOne(b) == b = 1
+IsZero(b) == b = 0
 \* index of the first 1 in s at or after i, Len(s)+1 if none
-RECURSIVE FirstOneFrom(_, _)
-FirstOneFrom(s, i) == IF i > Len(s) \/ s[i] = 1 THEN i ELSE FirstOneFrom(s, i + 1)
+FirstOneFrom(s, i) == IF i > Len(s) THEN Len(s) + 1
+                      ELSE LET k == SelectInSubSeq(s, i, Len(s), IsOne) IN IF k = 0 THEN Len(s) + 1 ELSE k
 \* index of the last 0 (resp. 1) in s at or before i, 0 if none
-RECURSIVE LastZeroUpTo(_, _)
-LastZeroUpTo(s, i) == IF i = 0 \/ s[i] = 0 THEN i ELSE LastZeroUpTo(s, i - 1)
-RECURSIVE LastOneUpTo(_, _)
-LastOneUpTo(s, i) == IF i = 0 \/ s[i] = 1 THEN i ELSE LastOneUpTo(s, i - 1)
+LastZeroUpTo(s, i) == IF i = 0 THEN 0 ELSE SelectLastInSubSeq(s, 1, i, IsZero)
+LastOneUpTo(s, i) == IF i = 0 THEN 0 ELSE SelectLastInSubSeq(s, 1, i, IsOne)
 
 Norm(s) == SubSeq(s, FirstOneFrom(s, 1), Len(s))
 IsNat(b) == b = <<>> \/ b[1] = 1
@@ -82,7 +85,7 @@ SubV(a, b, i, br, acc) ==
          IN  SubV(a, b, i - 1, IF d < 0 THEN 1 ELSE 0, <<(d + 2) % 2>> \o acc)
 
 Add(a, b) == IF Small(a) /\ Small(b) THEN FromInt(ToInt(a) + ToInt(b))
-             ELSE LET w == Max(Len(a), Len(b))
+             ELSE LET w == Max2(Len(a), Len(b))
                   IN  Norm(AddV(Pad(a, w), Pad(b, w), w, 0, <<>>))
 Sub(a, b) == IF Small(a) THEN FromInt(ToInt(a) - ToInt(b))          \* a >= b
              ELSE LET w == Len(a) IN Norm(SubV(a, Pad(b, w), w, 0, <<>>))
